@@ -181,6 +181,18 @@ def ev_grid(case, rec):
                 if st_ != 'ok' or tuple(r_) != tuple(r):
                     rec.fail('hemisphere spelling %r gives a different result from %r' % (sp, hemi), site='convert:grid2geo:hemisphere-spelling',
                              observed=r_, expected=list(r), case=one, coords=dict(co, spelling=sp))
+        # every numeric spelling of the same easting / northing / zone gives the same answer
+        if j % 4 == 1 and east == int(east) and north == int(north):
+            fz = dict(cfg.exact_forms(z))
+            for (nm, ef), (nm2, nf) in zip(cfg.exact_forms(east), cfg.exact_forms(north)):
+                for args in ((z, ef, north), (z, east, nf), (fz.get(nm, z), ef, nf)):
+                    st_, r_ = rec.call(grid2geo, args[0], args[1], args[2], hemi, ell, prj)
+                    if st_ != 'ok' or tuple(float(v) for v in r_) != tuple(r):
+                        rec.fail('numeric form %s of the same grid coordinate gives a different result' % nm,
+                                 site='convert:grid2geo:numeric-form', observed=r_ if st_ != 'ok' else [float(v) for v in r_],
+                                 expected=list(r), case=one, coords=dict(co, form=nm))
+                        break
+            rec.outcome('forms')
         st, r3 = rec.call(geo2grid, lat2, lon2, z, ell, prj)
         if st != 'ok':
             rec.fail('geo2grid raised on a position returned by grid2geo', site='convert:geo2grid', observed=r3,
@@ -242,6 +254,8 @@ def gen_sa(tier, seed):
     yield {'zone': 52, 'north': 9.95e6, 'easts': es, 'mode': 'csv'}
     yield {'zone': 30, 'north': 6.2e6, 'easts': [7.4e5, 7.8e5, 8.2e5, 8.305e5], 'mode': 'csv'}
     yield {'zone': 30, 'north': 9.99e6, 'easts': [7.4e5, 8.0e5, 8.33e5], 'mode': 'csv'}
+    yield {'zone': 55, 'north': 6.2e6, 'easts': es, 'mode': 'csv', 'spell': 1}
+    yield {'zone': 50, 'north': 5813614.161, 'easts': [321405.559, 444444.4444, 5e5, 612345.678, 7e5, 100000.5, 2e5, 3e5], 'mode': 'csv', 'spell': 1}
 
 
 def hp_to_dec(hp):
@@ -262,7 +276,10 @@ def ev_sa(case, rec):
         with open(fn_in, 'w', newline='') as f:
             w = csv.writer(f)
             for i, e in enumerate(case['easts']):
-                w.writerow(['P%d' % i, z, repr(e), repr(north)])
+                # the same numbers in every spelling float() reads: plain, exponent, explicit sign, blanks around
+                sp = case.get('spell', 0) and (i % 4)
+                fmt = [repr, lambda v: '%.17e' % v, lambda v: '+' + repr(v), lambda v: ' %r ' % v][sp]
+                w.writerow(['P%d' % i, z if sp != 1 else '%.1e' % z if z % 10 == 0 else '%.2E' % z, fmt(e), fmt(north)])
         st, msg = rec.call(m.grid2geoio, fn_in)
         if st != 'ok':
             rec.fail('batch converter raised on a well-formed csv', site='Standalone:grid2geoio', observed=msg)
@@ -313,9 +330,9 @@ def ev_sa(case, rec):
 
 
 SUBCHECKS = [
-    Sub('geo_roundtrip', gen_geo, ev_geo, chunk=16, floor=1000),
-    Sub('grid_lattice', gen_grid, ev_grid, chunk=8, floor=1000),
-    Sub('standalone', gen_sa, ev_sa, chunk=8, floor=500),
+    Sub('geo_roundtrip', gen_geo, ev_geo, chunk=16, floor=1000, envs=24),
+    Sub('grid_lattice', gen_grid, ev_grid, chunk=8, floor=1000, envs=24),
+    Sub('standalone', gen_sa, ev_sa, chunk=8, floor=500, envs=1),
 ]
 
 
